@@ -47,6 +47,26 @@ fn build_section(s: &Section, seed: u8, block_version: u32) -> AuxPow {
         // alignment sweep: the parent coinbase scriptSig length is carried in `chain_branch` (the branch itself stays empty)
         5 => Tx { version: 1, segwit: false, inputs: vec![TxIn::coinbase(vec![0x51; s.chain_branch])], outputs: vec![TxOut { value: 25, script: script::p2pkh(&script::h20(seed)) }], locktime: 0, wide: 0 },
         4 => Tx { version: 1, segwit: false, inputs: vec![TxIn::coinbase(vec![0x51; 17_000_000])], outputs: (0..70_000).map(|k| TxOut { value: k, script: vec![0x51; 25] }).collect(), locktime: 1, wide: 0 },
+        // the parent transaction is whatever the parent chain's miner serialised there - the section is delimited by the
+        // transaction format alone: two inputs (the first one null), an ordinary outpoint instead of the null one, the null id
+        // with index 0, no outputs at all, extreme version / sequence / lock time, 300 inputs with witness stacks
+        6 => Tx { version: 1, segwit: false, inputs: vec![TxIn::coinbase(vec![3, 1, 2, 3]), TxIn::spend([0x77; 32], 1)], outputs: vec![TxOut { value: 25, script: script::p2pkh(&script::h20(seed)) }], locktime: 0, wide: 0 },
+        7 => Tx { version: 1, segwit: false, inputs: vec![TxIn::spend([0x78; 32], 0)], outputs: vec![TxOut { value: 25, script: script::p2pkh(&script::h20(seed)) }], locktime: 0, wide: 0 },
+        8 => {
+            let mut i = TxIn::coinbase(vec![3, 1, 2, 3]);
+            i.prev_index = 0;
+            Tx { version: 1, segwit: false, inputs: vec![i], outputs: vec![TxOut { value: 25, script: script::p2pkh(&script::h20(seed)) }], locktime: 0, wide: 0 }
+        }
+        9 => Tx { version: 1, segwit: false, inputs: vec![TxIn::coinbase(vec![3, 1, 2, 3])], outputs: vec![], locktime: 0, wide: 0 },
+        10 => {
+            let mut i = TxIn::coinbase(vec![]);
+            i.sequence = 0;
+            Tx { version: 0xffff_ffff, segwit: false, inputs: vec![i], outputs: vec![TxOut { value: u64::MAX, script: vec![] }], locktime: 0xffff_ffff, wide: 0 }
+        }
+        11 => {
+            let ins: Vec<TxIn> = (0..300u32).map(|k| { let mut i = TxIn::spend([0x79; 32], k); i.witness = vec![vec![k as u8; (k % 5) as usize]; (k % 4) as usize]; i }).collect();
+            Tx { version: 2, segwit: true, inputs: ins, outputs: vec![TxOut { value: 25, script: script::witness(1, &[seed; 32]) }], locktime: 0, wide: 0 }
+        }
         _ => {
             let mut i = TxIn::coinbase(vec![3, 9, 9, 9]);
             i.witness = vec![vec![0u8; 32], vec![], vec![1, 2, 3]];
@@ -115,6 +135,11 @@ pub fn run() -> Report {
         for v in 0..6u8 {
             for parent_cb in 0..3u8 {
                 cases.push(Case { coin: cn, versions: vec![thr, thr - 1, thr + 1, thr], section: Section { parent_cb, cb_branch: 2, chain_branch: 1, mask: 1, parent_version: 0, wide: 0 }, label: format!("length-field#{}", v) });
+            }
+        }
+        for parent_cb in 6..=11u8 {
+            for (cb, ch) in [(0usize, 0usize), (2, 1)] {
+                cases.push(Case { coin: cn, versions: vec![thr, thr + 1, thr - 1, thr], section: Section { parent_cb, cb_branch: cb, chain_branch: ch, mask: 1, parent_version: 0, wide: 0 }, label: "parent-transaction-shapes".into() });
             }
         }
         // a parent coinbase far larger than any buffer: 70 000-byte scriptSig, 300 outputs
